@@ -65,7 +65,41 @@ pub enum Act {
     UpdS { store: u8, k: i32, v: i64 },
     RemS { store: u8, k: i32 },
     ClrS { store: u8 },
+    /// The handler instructs the agent to stop (clean stop from inside).
+    StopSelf,
+    /// The handler fails with an application error (`context.fail`): the rest of the program is
+    /// abandoned, the agent logs the error and carries on.
+    Abort,
+    /// The handler fails fatally (stepped after completion): the agent task ends with an error.
+    Fail,
 }
+
+/// A handler that violates the handler contract, which the agent treats as fatal.
+struct Fatal;
+
+impl HandlerAction<PAgent> for Fatal {
+    type Completion = ();
+
+    fn step(
+        &mut self,
+        _action_context: &mut ActionContext<PAgent>,
+        _meta: AgentMetadata,
+        _agent: &PAgent,
+    ) -> StepResult<Self::Completion> {
+        StepResult::after_done()
+    }
+}
+
+#[derive(Debug)]
+pub struct InjectedHandlerError;
+
+impl std::fmt::Display for InjectedHandlerError {
+    fn fmt(&self, f: &mut std::fmt::Formatter<'_>) -> std::fmt::Result {
+        write!(f, "handler failure requested by the harness")
+    }
+}
+
+impl std::error::Error for InjectedHandlerError {}
 
 /// State of every item of the agent. Value items in the order v0 v1 vt vs vst, map items in the
 /// order m0 m1 mt ms mst.
@@ -211,6 +245,9 @@ fn act_handler(context: Ctx, shared: &Arc<Shared>, act: Act) -> Box<dyn EventHan
             0 => Box::new(context.clear(PAgent::MS).followed_by(context.effect(record))),
             _ => Box::new(context.clear(PAgent::MST).followed_by(context.effect(record))),
         },
+        Act::StopSelf => Box::new(context.effect(record).followed_by(context.stop())),
+        Act::Abort => Box::new(context.effect(record).followed_by(context.fail::<(), _>(InjectedHandlerError))),
+        Act::Fail => Box::new(context.effect(record).followed_by(Fatal)),
     }
 }
 
